@@ -4,13 +4,11 @@ import (
 	"bytes"
 	"encoding/binary"
 	"fmt"
-	"io"
 	"os"
 	"path/filepath"
 	"sort"
 	"strings"
 	"testing"
-	"testing/iotest"
 
 	"github.com/kelindar/column/commit"
 	"pgregory.net/rapid"
@@ -95,7 +93,12 @@ func writeBop(b *commit.Buffer, o bop, variant int) {
 		if variant&1 == 1 {
 			b.PutString(o.Typ, off, o.Val)
 		} else {
-			b.PutBytes(o.Typ, off, []byte(o.Val))
+			// the caller's slice is scribbled over right after the call: the buffer must hold a copy
+			v := []byte(o.Val)
+			b.PutBytes(o.Typ, off, v)
+			for i := range v {
+				v[i] ^= 0xa5
+			}
 		}
 	}
 }
@@ -254,44 +257,6 @@ const (
 )
 
 var c05TmpDir string
-
-// patternReader hands out its data in pieces of 1, 2, 3, 5, 8, 13, 1, ... bytes.
-type patternReader struct {
-	data []byte
-	i    int
-}
-
-func (p *patternReader) Read(dst []byte) (int, error) {
-	if len(p.data) == 0 {
-		return 0, io.EOF
-	}
-	n := []int{1, 2, 3, 5, 8, 13}[p.i%6]
-	p.i++
-	if n > len(dst) {
-		n = len(dst)
-	}
-	if n > len(p.data) {
-		n = len(p.data)
-	}
-	copy(dst, p.data[:n])
-	p.data = p.data[n:]
-	return n, nil
-}
-
-// deliver wraps encoded bytes in one of four legal io.Readers (chosen by the size and the variant,
-// so that a case stays a pure function of its inputs): all at once, one byte per Read, pieces of a
-// fixed pattern, or half of what is asked with the final data arriving together with io.EOF.
-func deliver(b []byte, variant int) io.Reader {
-	switch (len(b) + variant) % 4 {
-	case 1:
-		return iotest.OneByteReader(bytes.NewReader(b))
-	case 2:
-		return &patternReader{data: b}
-	case 3:
-		return iotest.DataErrReader(iotest.HalfReader(bytes.NewReader(b)))
-	}
-	return bytes.NewReader(b)
-}
 
 // checkC05 runs all oracles of C05 for one written op list. variant selects the
 // typed Put* entry points used.
